@@ -493,12 +493,14 @@ func RuntimeHash(state *core.BuildState, target *core.BuildTarget, testRun int) 
 	hash := append(RuleHash(state, target, true, false), RuleHash(state, target, true, true)...)
 	hash = append(hash, state.Hashes.Config...)
 	h := sha1.New()
-	for src := range core.IterRuntimeFiles(state.Graph, target, true, target.TestDir(testRun)) {
+	for src, dest := range core.IterRuntimeFiles(state.Graph, target, false, "") {
 		result, err := state.PathHasher.Hash(src, false, true, false)
 		if err != nil {
 			return result, err
 		}
 		h.Write(result)
+		// Where the file ends up in the test directory matters too, not just what's in it.
+		hashString(h, dest)
 	}
 	return append(hash, h.Sum(nil)...), nil
 }
